@@ -23,7 +23,7 @@ def run(rep, tier, seed, pa):
     modes = ["cbc" if k % 2 == 0 else "glpk-noimport" for k in range(len(cases))]
     items = list(zip(cases, ac.align_many(pa, [(case, m, True) for case, m in zip(cases, modes)])))
     bests = ac.align_many(pa, [(case, m, False) for case, m in zip(cases, modes)])
-    facts = ac.judge_many(rep, items, part=False, want_optimal=True, limit=20 if tier == "quick" else 120)
+    facts = ac.judge_many(rep, items, part=False, want_optimal=True, limit=20 if tier == "quick" else 40)
     for (case, res), f, best in zip(items, facts, bests):
         I = res.get("I")
         rep.count("backend=" + res["mode"])
